@@ -373,6 +373,38 @@ def wkcv_constants() -> typing.Dict[str, str]:
     return out
 
 
+def parser_table() -> typing.List[dict]:
+    """every add_argument call of cli/__init__.py: option strings, dest, action, nargs, default (constants only; a default that is
+    not a constant fails closed).  A dest defined by more than one call is dropped (ambiguous)."""
+    tree = gen.parse_repo('src/nunavut/cli/__init__.py')
+    rows: typing.Dict[str, typing.Optional[dict]] = {}
+    for c in ast.walk(tree):
+        if not (isinstance(c, ast.Call) and isinstance(c.func, ast.Attribute) and c.func.attr == 'add_argument'):
+            continue
+        flags = [a.value for a in c.args if isinstance(a, ast.Constant) and isinstance(a.value, str)]
+        if len(flags) != len(c.args) or not flags:
+            raise Unsupported('add_argument with non-constant option strings')
+        kw = {k.arg: k.value for k in c.keywords}
+        if 'dest' in kw:
+            if not isinstance(kw['dest'], ast.Constant):
+                raise Unsupported('non-constant dest')
+            dest = kw['dest'].value
+        else:
+            longs = [f for f in flags if f.startswith('--')]
+            dest = (longs[0] if longs else flags[0]).lstrip('-').replace('-', '_')
+
+        def const(name):
+            if name not in kw:
+                return None
+            if not isinstance(kw[name], ast.Constant):
+                return ('expr', ast.unparse(kw[name]))       # rejected below if a dest the runner reads is concerned
+            return kw[name].value
+        row = {'flags': flags, 'dest': dest, 'action': const('action'), 'nargs': const('nargs') if 'nargs' in kw else None,
+               'default': const('default')}
+        rows[dest] = None if dest in rows else row
+    return [r for r in rows.values() if r is not None]
+
+
 def translate_cli(wk: typing.Dict[str, str]) -> str:
     """ArgparseRunner._create_language_context -> (a) the language_options dict as a function of the parsed
     arguments (`arg name` = Some atom when the argparse attribute is not None / a store_true flag is set),
@@ -380,6 +412,8 @@ def translate_cli(wk: typing.Dict[str, str]) -> str:
     tree = gen.parse_repo('src/nunavut/cli/runners.py')
     fn = find_function(tree, 'ArgparseRunner', '_create_language_context')
     opts: typing.List[str] = []       # Gallina statements building language_options
+    sources: typing.List[typing.Tuple[str, str]] = []   # (option key, argparse dest)
+    used: typing.List[str] = []      # every argparse dest the function reads
     calls: typing.List[str] = []
     seen_builder = False
     cfg_seen = False
@@ -387,6 +421,8 @@ def translate_cli(wk: typing.Dict[str, str]) -> str:
     def arg_of(e: ast.expr) -> str:
         if (isinstance(e, ast.Attribute) and isinstance(e.value, ast.Attribute) and e.value.attr == '_args'
                 and isinstance(e.value.value, ast.Name) and e.value.value.id == 'self'):
+            if e.attr not in used:
+                used.append(e.attr)
             return e.attr
         raise Unsupported('not an argparse attribute: %s' % ast.unparse(e))
 
@@ -417,6 +453,7 @@ def translate_cli(wk: typing.Dict[str, str]) -> str:
             if (isinstance(v, ast.IfExp) and isinstance(v.body, ast.Constant) and v.body.value is True
                     and ast.unparse(v.orelse) == 'DefaultValue(False)'):
                 a = arg_of(v.test)
+                sources.append((k, a))
                 opts.append('let lo := dset %s (if cli_truthy (arg %s) then Leaf false (ABool true) else Leaf true (ABool false)) lo in'
                             % (coq_str(k), coq_str(a)))
                 continue
@@ -431,6 +468,7 @@ def translate_cli(wk: typing.Dict[str, str]) -> str:
             k = opt_key(s.body[0].targets[0])
             if arg_of(s.body[0].value) != a:
                 raise Unsupported('value of %s' % k)
+            sources.append((k, a))
             opts.append('let lo := match arg %s with Some a => dset %s (Leaf false a) lo | None => lo end in' % (coq_str(a), coq_str(k)))
             continue
         if isinstance(s, ast.If) and 'additional_config_files' in u and 'self._args.configuration' in u:
@@ -468,7 +506,31 @@ def translate_cli(wk: typing.Dict[str, str]) -> str:
         raise Unsupported('statement in _create_language_context: %s' % u.splitlines()[0])
     if not (seen_builder and cfg_seen and calls and calls[-1] == 'CliCreate'):
         raise Unsupported('_create_language_context shape')
-    return ('(* ArgparseRunner._create_language_context *)\n'
+    if 'target_language' not in used:
+        used.append('target_language')
+    table = {r['dest']: r for r in parser_table()}
+    defaults = []
+    for d in used:
+        if d not in table:
+            raise Unsupported('argparse attribute %s read by _create_language_context is not defined by exactly one add_argument call' % d)
+        r = table[d]
+        if r['action'] not in (None, 'store', 'store_true') or r['nargs'] is not None or isinstance(r['default'], tuple):
+            raise Unsupported('argparse action/nargs/default of %s is outside the supported forms' % d)
+        dv = False if (r['action'] == 'store_true' and r['default'] is None) else r['default']
+        if dv is not None:
+            defaults.append('(%s, %s)' % (coq_str(d), coq_atom(dv)))
+    table_text = ('(* cli/__init__.py: what the parser stores for an option that is NOT given on the command line (dest -> default);\n'
+                  '   a dest that is absent here defaults to None.  Every argparse attribute _create_language_context reads is covered. *)\n'
+                  'Definition cli_arg_dests : list (list N) := [%s].\n'
+                  'Definition cli_arg_defaults : list (list N * atom) := [%s].\n\n'
+                  '(* the parsed Namespace as a function of what was literally given on the command line *)\n'
+                  'Definition cli_args (given : list N -> option atom) (dest : list N) : option atom :=\n'
+                  '  match given dest with Some a => Some a | None => dget dest cli_arg_defaults end.\n\n'
+                  '(* which argparse dest feeds which language option *)\n'
+                  'Definition cli_option_sources : list (list N * list N) := [%s].\n\n'
+                  % ('; '.join(coq_str(d) for d in used), '; '.join(defaults),
+                     '; '.join('(%s, %s)' % (coq_str(k), coq_str(a)) for k, a in sources)))
+    return (table_text + '(* ArgparseRunner._create_language_context *)\n'
             'Definition cli_truthy (a : option atom) : bool :=\n'
             '  match a with Some (ABool b) => b | Some ANone => false | Some _ => true | None => false end.\n\n'
             'Definition cli_language_options (arg : list N -> option atom) : list (list N * cv) :=\n'
@@ -978,6 +1040,9 @@ def gen_c13() -> typing.Tuple[bool, str]:
         parts.append('(* nunavut.lang.cpp built-in `options` *)\nDefinition cpp_builtin_options : list (list N * cv) :=\n    %s.'
                      % coq_flat_dict(cpp[wk['WKCV_LANGUAGE_OPTIONS']]))
         docs = documented_shorthand_groups()
+        parts.append('(* docs/languages.rst: the option group each -std shorthand is documented to stand for, with values *)\n'
+                     'Definition cpp_documented_groups : list (list N * list (list N * cv)) :=\n  [%s].'
+                     % ';\n   '.join('(%s,\n    %s)' % (coq_str(k), coq_flat_dict(v)) for k, v in docs.items()))
         parts.append('(* docs/languages.rst: the option group each -std shorthand is documented to stand for (keys) *)\n'
                      'Definition cpp_documented_group_keys : list (list N * list (list N)) :=\n  [%s].'
                      % ';\n   '.join('(%s, [%s])' % (coq_str(k), '; '.join(coq_str(x) for x in v)) for k, v in docs.items()))
